@@ -1364,7 +1364,7 @@ func ruleR46(c *Ctx) {
 		g := p.Graph(f)
 		var pts []Point
 		for _, pt := range g.AllPoints() {
-			if _, ok := nodeSendsTrace(in, pt.Node(), "CeaseProcessSetTrace"); ok {
+			if _, ok := nodeSendsTraceDirect(in, pt.Node(), "CeaseProcessSetTrace"); ok {
 				pts = append(pts, pt)
 			}
 		}
